@@ -106,8 +106,12 @@ def check(ctx):
         a, kw = args(X, Y, cell)
         ctx.call_func(I, st, f, *a, **kw)
         ev = I.events
-        chk = [i for i, e in enumerate(ev) if e["kind"] == "raise" and e.get("short") == "_check_dimension"]
-        first_use = [i for i, e in enumerate(ev) if e["kind"] in ("validate", "mutate") or (e["kind"] == "branch" and e.get("short") != "_check_dimension")]
+        from .. import tq as _tq
+
+        # the check is whatever raises under a condition on the extent of the cell (wherever it lives, whatever it is called)
+        chk = [i for i, e in enumerate(ev) if e["kind"] == "raise" and any(_tq.has_size(c_, "D2") for c_, _p in e["pc"])]
+        checkers = {ev[i].get("short") for i in chk}
+        first_use = [i for i, e in enumerate(ev) if e["kind"] in ("validate", "mutate") or (e["kind"] == "branch" and e.get("short") not in checkers)]
         ok = bool(chk) and (not first_use or min(chk) < min(first_use))
         condt = [c for i in chk for c, pol in ev[i]["pc"]]
         conds = [repr(c) for c in condt]
